@@ -21,31 +21,30 @@ Definition prox_l2_big : @op QV := Op cls_ProximalL2_bigstep sp3 (RSp sp3) [] []
 (* Stated for the variant of the small-size regime that the CURRENT source has
    ([small_guarded], regenerated): unguarded -> the NaN survives; repaired -> zeros. *)
 Lemma prox_l2_old_out_survives :
-  if small_guarded then True else
+  match small_guarded with SvUnguarded => False | _ => True end \/
   data_after (call junkQ prox_l2_big (VElem 0%nat) (Some (VElem 1%nat)) [(sp3, q3 1 2 3); (sp3, nan3)]) 1 = Some nan3
   /\ data_after (call junkQ prox_l2_big (VElem 0%nat) (Some (VElem 1%nat)) [(sp3, q3 1 2 3); (sp3, q3 7 8 9)]) 1
      = Some (q3 0 0 0).
-Proof. vm_compute. first [exact I | split; reflexivity]. Qed.
+Proof. vm_compute. first [left; exact I | right; split; reflexivity]. Qed.
 (* the out-of-place call goes through _default_call_out_of_place, i.e. the same
    code on an UNINITIALISED element: the result is whatever np.empty returned, times 0 *)
 Lemma prox_l2_oop_reads_uninitialised :
-  if small_guarded then True else
+  match small_guarded with SvUnguarded => False | _ => True end \/
   match call junkQ prox_l2_big (VElem 0%nat) None [(sp3, q3 1 2 3)] with
   | Ok (VElem r) s => data_after (Ok (VElem r) s) r = Some nan3
   | _ => False
   end.
-Proof. vm_compute. first [exact I | reflexivity]. Qed.
+Proof. vm_compute. first [left; exact I | right; reflexivity]. Qed.
 (* and once the small-size regime skips zero terms, both calls give zeros whatever out held *)
 Lemma prox_l2_repaired_ignores_out :
-  if small_guarded then
-    data_after (call junkQ prox_l2_big (VElem 0%nat) (Some (VElem 1%nat)) [(sp3, q3 1 2 3); (sp3, nan3)]) 1
+  match small_guarded with SvUnguarded => True | _ => False end \/
+    (data_after (call junkQ prox_l2_big (VElem 0%nat) (Some (VElem 1%nat)) [(sp3, q3 1 2 3); (sp3, nan3)]) 1
       = Some (q3 0 0 0)
     /\ match call junkQ prox_l2_big (VElem 0%nat) None [(sp3, q3 1 2 3)] with
        | Ok (VElem r) s => data_after (Ok (VElem r) s) r = Some (q3 0 0 0)
        | _ => False
-       end
-  else True.
-Proof. vm_compute. first [exact I | split; reflexivity]. Qed.
+       end).
+Proof. vm_compute. first [left; exact I | right; split; reflexivity]. Qed.
 
 (* ---- (2) elements owned by the operator must not be passed as x or out ---- *)
 Definition scal3 (c : Q) : @op QV := Op cls_ScalingOperator sp3 (RSp sp3) [Some c] [] [] [].
